@@ -26,6 +26,7 @@ struct Kind { int function; unsigned x26, x28; const char *name; };
 static const Kind KINDS[] = {
 	{F_LOP, 0, 0, "LOP"}, {F_LOP, 1, 0, "LOP+X26"}, {F_LOP, 3, 1, "LOP+X28"}, {F_UNKNOWN, 0, 0, "UNKNOWN"},
 	{F_POP, 0, 0, "POP"}, {F_DRCS, 0, 0, "DRCS"}, {F_AIT, 0, 0, "AIT"}, {F_GPOP, 0, 0, "GPOP"},
+	{F_LOP, 0, 0x10, "LOP+X28/4"}, {F_LOP, 1, 0x02, "LOP+X26+X28/1"},
 };
 #define ANY_SUBNO 0x3F7F
 #define PT_NORMAL 0x01		/* VBI_NORMAL_PAGE */
@@ -314,7 +315,7 @@ static int run_history(Src &s, Report &r, bool bare, unsigned max_ops) {
 		int pgno = PGNOS[b % 7], subno = SUBNOS[(b >> 3) % 9];
 		switch (op) {
 		case 0: case 1: case 2: case 3: case 4:
-			rc = op_put(w, *n, pgno, subno, KINDS[c & 7], (c >> 3) + 1, op == 4 || (c & 0x80)); break;
+			rc = op_put(w, *n, pgno, subno, KINDS[((c & 7) == 2 && (c & 0x40)) ? 8 + ((c >> 5) & 1) : (c & 7)], (c >> 3) + 1, op == 4 || (c & 0x80)); break;	// (half of the "LOP+X28" choices go to the two kinds added later: X/28/4 only, X/26 + X/28/1)
 		case 5: rc = op_get(w, *n, pgno, subno, -1, c & 1); break;
 		case 6: { static const int masks[] = {0, 0xFF, 0x0F, -1}; rc = op_get(w, *n, pgno, (c & 2) ? ANY_SUBNO : subno, masks[(c >> 2) & 3], c & 1); break; }
 		case 7: case 8: if (!w.handles.empty()) rc = op_unref(w, c % w.handles.size()); break;
